@@ -4,7 +4,8 @@
 // A per-sample model and a progressive layout are drawn (internal/mp4build: the harness' own writer),
 // the file is written to a scratch directory, the mp4ff-crop BINARY is run on it and its output file is
 // read with the harness' own byte-level parser (internal/tablemodel). k is computed from the model by
-// the statement of the property, not by the tool's algorithm.
+// the statement of the property, not by the tool's algorithm. At the end the library's own decoder
+// (mp4.DecodeFile) must accept the output as well.
 package c10
 
 import (
@@ -18,6 +19,7 @@ import (
 	"strings"
 	"testing"
 
+	"github.com/Eyevinn/mp4ff/mp4"
 	"pgregory.net/rapid"
 
 	"verif/internal/harness"
@@ -68,6 +70,15 @@ var avoidKnown = map[string]bool{
 	// wrong entry, when a track uses more than one sample description. Generator side: all chunks use
 	// sample description 1.
 	"multiple-sample-descriptions": false, // repaired in /repo (fix: 5b2332b)
+	// Not yet triaged (reproducer replay/C10/pending/new-zero-duration-sample-starts-at-cut-time.json):
+	// SttsBox.GetSampleNrAtTime(t) skips table entries with sample_delta 0, so when a sample of duration 0
+	// (not the last of the track) starts exactly at t it answers the first sample AFTER the run of
+	// zero-duration samples instead of the first sample that starts at t. findEndTime (request on the
+	// reference track) and findTrakEnds (end time on every track) then keep the zero-duration samples that
+	// start AT the end time (or choose a later sync sample). Generator side: a case in which one of those
+	// query times is the start time of a non-final zero-duration sample is not run; all other cases with
+	// zero durations in the middle are.
+	"zero-duration-sample-starts-at-cut-time": false, // repaired in /repo (fix: 8b1d3f8)
 }
 
 type cropCase struct {
@@ -414,6 +425,9 @@ func evalCrop(c *cropCase) (fail *harness.Fail, info evalInfo) {
 		if chunks[a].off != chunks[b].off {
 			return chunks[a].off < chunks[b].off
 		}
+		if chunks[a].size != chunks[b].size { // chunks without bytes (empty samples) first: they share their offset with the next chunk
+			return chunks[a].size < chunks[b].size
+		}
 		if chunks[a].track != chunks[b].track {
 			return chunks[a].track < chunks[b].track
 		}
@@ -429,6 +443,19 @@ func evalCrop(c *cropCase) (fail *harness.Fail, info evalInfo) {
 	}
 	if pos != payHi {
 		return harness.Failf("C10|mp4ff-crop|mdat payload is not exactly the kept chunks in order", "chunks end at %d, mdat payload ends at %d", pos, payHi), info
+	}
+	// ---- the library's decoder accepts the output
+	lf, err := mp4.DecodeFile(bytes.NewReader(out))
+	if err != nil {
+		return harness.Failf("C10|mp4ff-crop|output is rejected by mp4.DecodeFile", "mp4ff-crop -d %d: %v (samples kept per track %v)", c.DurMS, err, ex.K), info
+	}
+	if lf.Moov == nil || len(lf.Moov.Traks) != len(c.Tracks) || lf.IsFragmented() {
+		return harness.Failf("C10|mp4ff-crop|output decoded by mp4.DecodeFile has another structure", "moov %v, fragmented %v", lf.Moov != nil, lf.IsFragmented()), info
+	}
+	for ti, trak := range lf.Moov.Traks {
+		if got := trak.GetNrSamples(); int(got) != ex.K[ti] {
+			return harness.Failf("C10|mp4ff-crop|output decoded by mp4.DecodeFile has another structure", "track #%d: %d samples, %d kept", ti+1, got, ex.K[ti]), info
+		}
 	}
 	classifyCut(c, &ex, &info)
 	return nil, info
@@ -492,6 +519,32 @@ func classifyInput(c *cropCase, ex *expectation, info *evalInfo) {
 		ts[t.Timescale] = true
 	}
 	add(len(ts) > 1, "different-timescales", "")
+	add(c.Layout.UnorderedChunks, "chunks-of-a-track-out-of-order-in-mdat", "")
+	decreasing, zeroSize, zeroDur, zeroDurRef := false, false, false, false
+	for ti, tr := range c.Tracks {
+		tl := c.Layout.Tracks[ti]
+		// mdat position of every chunk of the track
+		at := make([]int, len(tl.ChunkSizes))
+		for oi, tc := range c.Layout.ChunkOrder {
+			if tc[0] == ti && tc[1] >= 0 && tc[1] < len(at) {
+				at[tc[1]] = oi
+			}
+		}
+		for i := 1; i < len(at); i++ {
+			decreasing = decreasing || at[i] < at[i-1]
+		}
+		for i, s := range tr.Samples {
+			zeroSize = zeroSize || len(s.Data) == 0
+			if s.Dur == 0 && i < len(tr.Samples)-1 {
+				zeroDur = true
+				zeroDurRef = zeroDurRef || ti == ex.Ref
+			}
+		}
+	}
+	add(decreasing, "chunk-offsets-of-a-track-not-increasing", "")
+	add(zeroSize, "zero-size-sample", "")
+	add(zeroDur, "zero-duration-mid-track", "")
+	add(zeroDurRef, "zero-duration-mid-track-reference", "")
 	if ex.Defined {
 		diff := false
 		for i := range ex.K {
@@ -506,6 +559,7 @@ func classifyInput(c *cropCase, ex *expectation, info *evalInfo) {
 
 func classifyCut(c *cropCase, ex *expectation, info *evalInfo) {
 	cutAny, insideStts, insideChunk, lastStsc, insideCtts, firstChunkOfRun := false, false, false, false, false, false
+	zeroSizeAtCut, zeroSizeKept, zeroDurAtCut, cutInSwapped := false, false, false, false
 	allKept := true
 	for ti, tr := range c.Tracks {
 		tl := c.Layout.Tracks[ti]
@@ -518,6 +572,12 @@ func classifyCut(c *cropCase, ex *expectation, info *evalInfo) {
 			continue
 		}
 		cutAny = true
+		if len(tr.Samples[k-1].Data) == 0 || len(tr.Samples[k].Data) == 0 {
+			zeroSizeAtCut = true
+		}
+		if tr.Samples[k-1].Dur == 0 || tr.Samples[k].Dur == 0 || (k >= 2 && tr.Samples[k-2].Dur == 0) {
+			zeroDurAtCut = true
+		}
 		if !tl.NoMerge && tr.Samples[k-1].Dur == tr.Samples[k].Dur {
 			insideStts = true
 		}
@@ -533,6 +593,16 @@ func classifyCut(c *cropCase, ex *expectation, info *evalInfo) {
 				break
 			}
 			sum += cs
+		}
+		// chunks 0..ci are kept: is one of them behind a later chunk of the track in the mdat?
+		at := make([]int, len(tl.ChunkSizes))
+		for oi, tc := range c.Layout.ChunkOrder {
+			if tc[0] == ti && tc[1] >= 0 && tc[1] < len(at) {
+				at[tc[1]] = oi
+			}
+		}
+		for i := 1; i <= ci+1 && i < len(at); i++ {
+			cutInSwapped = cutInSwapped || at[i] < at[i-1]
 		}
 		partial := sum+tl.ChunkSizes[ci] != k
 		if partial {
@@ -552,8 +622,25 @@ func classifyCut(c *cropCase, ex *expectation, info *evalInfo) {
 			firstChunkOfRun = true
 		}
 	}
+	for ti, tr := range c.Tracks {
+		for i := 0; i < ex.K[ti] && i < len(tr.Samples); i++ {
+			zeroSizeKept = zeroSizeKept || len(tr.Samples[i].Data) == 0
+		}
+	}
 	if allKept {
 		info.class("nothing-cropped")
+	}
+	if zeroSizeKept {
+		info.class("zero-size-sample-kept")
+	}
+	if zeroSizeAtCut {
+		info.class("zero-size-sample-at-cut")
+	}
+	if zeroDurAtCut {
+		info.class("zero-duration-at-cut")
+	}
+	if cutInSwapped {
+		info.class("cut-at-out-of-order-chunks")
 	}
 	if insideStts {
 		info.class("cut-inside-stts-run")
@@ -594,7 +681,8 @@ func genDur(t *rapid.T, c *cropCase) uint64 {
 	total := st
 	totalMS := total * 1000 / ts
 	var d uint64
-	switch k := rapid.IntRange(0, 19).Draw(t, "durKind"); {
+	k := rapid.IntRange(0, 19).Draw(t, "durKind")
+	switch {
 	case k < 12: // around a sync sample, the first one only if there is no other
 		if len(syncStarts) > 1 {
 			d = syncStarts[rapid.IntRange(1, len(syncStarts)-1).Draw(t, "durSync")]
@@ -612,6 +700,12 @@ func genDur(t *rapid.T, c *cropCase) uint64 {
 		d = rapid.Uint64Range(1, 50).Draw(t, "durSmall")
 	default:
 		d = rapid.Uint64Range(1, totalMS+2).Draw(t, "durAny")
+	}
+	// a request after the start of the last sync sample cannot be served (the tool reports that there is no
+	// sync sample, or no sample, at or after it): outside the kinds that aim beyond the end, three out of
+	// four of those are moved to the millisecond at or before the last sync sample
+	if n := len(syncStarts); n > 1 && k != 15 && k != 16 && d*ts/1000 > syncStarts[n-1] && rapid.IntRange(0, 3).Draw(t, "durClamp") != 0 {
+		d = syncStarts[n-1] * 1000 / ts
 	}
 	if d < 1 {
 		d = 1
@@ -639,6 +733,18 @@ func msAround(t *rapid.T, tick, ts uint64) uint64 {
 func genCrop(t *rapid.T) cropCase {
 	opt := mp4build.GenOpt{MaxSamples: harness.Pick(30, 60), AllowFinalZeroDur: true,
 		StsdEntries: rapid.SampledFrom([]int{1, 1, 1, 1, 1, 1, 2, 3}).Draw(t, "stsdEntries")}
+	// tracks of one to three samples can hardly be cropped: three cases out of four have four samples or more
+	if rapid.IntRange(0, 3).Draw(t, "minSamples") != 0 {
+		opt.MinSamples = 4
+	}
+	switch rapid.IntRange(0, 7).Draw(t, "zeroMode") { // empty samples / zero durations before the last sample
+	case 0:
+		opt.AllowZeroSize = true
+	case 1:
+		opt.AllowZeroDur = true
+	case 2:
+		opt.AllowZeroSize, opt.AllowZeroDur = true, true
+	}
 	tracks := mp4build.GenTracks(t, opt)
 	// the generator puts the video track first: sometimes drop it (audio reference) or move it
 	if len(tracks) >= 2 {
@@ -679,6 +785,10 @@ func genCrop(t *rapid.T) cropCase {
 	}
 	c := cropCase{Tracks: tracks}
 	c.Layout = mp4build.GenProgLayout(t, tracks)
+	// one case in six: two chunks of a track change places in the mdat (chunk offsets of the track not increasing)
+	if rapid.IntRange(0, 5).Draw(t, "swapChunks") == 0 {
+		mp4build.GenSwapChunks(t, &c.Layout)
+	}
 	// edit lists: the drawn segment durations are unrelated to the media; three out of four get the media
 	// duration (in movie timescale) as the duration of their last entry, as a real file would have
 	for ti := range c.Layout.Tracks {
@@ -695,7 +805,7 @@ func genCrop(t *rapid.T) cropCase {
 	return c
 }
 
-// alignTracks rescales (three times out of four) the sample durations of the non-reference tracks by a
+// alignTracks rescales (seven times out of eight) the sample durations of the non-reference tracks by a
 // common factor per track so that the tracks cover comparable real time (the independent draws of
 // mp4build.GenTracks give tracks whose lengths differ by orders of magnitude, on which the tool mostly
 // reports that a track ends before the cut). Equal durations stay equal, so the stts runs survive.
@@ -720,15 +830,34 @@ func alignTracks(t *rapid.T, tracks []mp4build.Track) {
 		}
 	}
 	refSec := total(tracks[ref])
+	// a track that ends before the cut makes the tool give up ("no matching sample found for time"): the
+	// shorter-than-reference factors are used in one case out of eight only
+	factors := []float64{1.0, 1.0, 1.01, 1.2, 2.0, 3.0}
+	if rapid.IntRange(0, 7).Draw(t, "alignShort") == 0 {
+		factors = []float64{0.5, 0.98}
+	}
 	for ti := range tracks {
-		if ti == ref || rapid.IntRange(0, 3).Draw(t, "align") == 0 {
+		if ti == ref || rapid.IntRange(0, 7).Draw(t, "align") == 0 {
 			continue
 		}
 		sec := total(tracks[ti])
 		if sec <= 0 || refSec <= 0 {
 			continue
 		}
-		factor := rapid.SampledFrom([]float64{0.5, 0.98, 1.0, 1.0, 1.01, 1.2, 2.0, 3.0}).Draw(t, "alignFactor")
+		factor := rapid.SampledFrom(factors).Draw(t, "alignFactor")
+		// a timescale too coarse for the real time of the reference track (fewer than two ticks per sample on
+		// average: the cut falls on tick 0 and the tool reports that the track keeps no sample) is replaced
+		// three times out of four
+		if n := float64(len(tracks[ti].Samples)); refSec*factor*float64(tracks[ti].Timescale) < 2*n && rapid.IntRange(0, 3).Draw(t, "alignTimescale") != 0 {
+			old := tracks[ti].Timescale
+			for _, ts := range []uint32{1000, 48000, 10000000} {
+				if refSec*factor*float64(ts) >= 2*n {
+					tracks[ti].Timescale = ts
+					break
+				}
+			}
+			sec = sec * float64(old) / float64(tracks[ti].Timescale)
+		}
 		scale := refSec * factor / sec
 		for i := range tracks[ti].Samples {
 			s := &tracks[ti].Samples[i]
@@ -772,6 +901,9 @@ func applyAvoid(c *cropCase) (skip bool, excluded []string) {
 			return true, append(excluded, "ref-track-stss-empty")
 		}
 	}
+	if c.avoid("zero-duration-sample-starts-at-cut-time") && zeroDurAtQueryTime(c) {
+		return true, append(excluded, "zero-duration-sample-starts-at-cut-time")
+	}
 	if c.avoid("track-keeps-no-sample") {
 		ex := expect(c)
 		for _, k := range ex.K {
@@ -781,6 +913,35 @@ func applyAvoid(c *cropCase) (skip bool, excluded []string) {
 		}
 	}
 	return false, excluded
+}
+
+// zeroDurAtQueryTime reports whether one of the times the tool looks up in an stts (the request on the
+// reference track; the end time, converted, on every track) is the start time of a zero-duration sample
+// that is not the last sample of its track.
+func zeroDurAtQueryTime(c *cropCase) bool {
+	ex := expect(c)
+	refTs := uint64(c.Tracks[ex.Ref].Timescale)
+	for ti, tr := range c.Tracks {
+		var times []uint64
+		if ti == ex.Ref {
+			times = append(times, ex.Request)
+		}
+		if ex.Defined {
+			times = append(times, ex.End*uint64(tr.Timescale)/refTs)
+		}
+		var st uint64
+		for i, s := range tr.Samples {
+			if s.Dur == 0 && i < len(tr.Samples)-1 {
+				for _, t := range times {
+					if t == st {
+						return true
+					}
+				}
+			}
+			st += uint64(s.Dur)
+		}
+	}
+	return false
 }
 
 const batchSize = 16
